@@ -126,6 +126,8 @@ ObsBranches(obs) == {<<obs.branches[i].name, obs.branches[i].parent, obs.branche
 ObsTags(obs) == {<<obs.tags[i].tag, obs.tags[i].loc, obs.tags[i].v>> : i \in 1..Len(obs.tags)}
 TagRead(obs, t) == obs.tags[CHOOSE i \in 1..Len(obs.tags) : obs.tags[i].tag = t].read
 
+ObsLatest(obs, x) == LET is == {i \in 1..Len(obs.latest) : obs.latest[i].loc = x} IN
+                     IF is = {} THEN -2 ELSE obs.latest[CHOOSE i \in is : TRUE].v
 LocKeys(f, x) == {k \in DOMAIN f : k[1] = x}
 RestrictTo(f, S) == [k \in S |-> f[k]]
 
@@ -272,7 +274,6 @@ HistStep(e) ==
                                  IF r.res = "ok" /\ r.mv = want[2] /\ r.mbranch = want[1] /\ want \in kept /\ RowSet(r.rows) = g[want]
                                  THEN {} ELSE {ent("TagResolves", <<"reads-another-version", "">>)}
                             : t \in DOMAIN tags2}
-      allBad == frameBad \cup leftBad \cup isoBad \cup opBad \cup listBad \cup tagBad
       \* ghost after the step, re-synchronised with the observation
       g1 == [k \in kept |-> IF RD(obs, k[1], k[2]) = MISSING THEN g[k] ELSE RD(obs, k[1], k[2])]
       g2 == IF nk # <<>> /\ ok /\ newOK THEN (nk :> NewVal(st)) @@ g1 ELSE g1
@@ -281,9 +282,14 @@ HistStep(e) ==
                 [] OTHER -> lat
       anc2 == IF op \in {"create_branch", "clone"} /\ ok
               THEN (subj :> ({st.src} \cup (IF st.src \in DOMAIN anc THEN anc[st.src] ELSE {}))) @@ anc ELSE anc
+      \* 6. the latest version of every intact location is the model's (a step must not move another location's head)
+      moved == IF stop THEN {}
+               ELSE {y \in DOMAIN lat2 : <<y, lat2[y]>> \in DOMAIN g2 /\ g2[<<y, lat2[y]>>] \notin {ERR, GARBLED, MISSING} /\ ObsLatest(obs, y) # lat2[y]}
+      latBad == {ent(IF x = subj THEN "WriteApplies" ELSE "BranchIsolation", <<op, "latest-version-moved">>) : x \in moved}
+      allBad == frameBad \cup leftBad \cup isoBad \cup opBad \cup listBad \cup tagBad \cup latBad
   IN
   /\ bad' = AddBad(allBad)
-  /\ g' = g2 /\ lat' = lat2 /\ liveB' = liveB2 /\ parB' = parB2 /\ anc' = anc2 /\ tags' = tags2
+  /\ g' = g2 /\ lat' = [x \in DOMAIN lat2 |-> IF x \in moved THEN ObsLatest(obs, x) ELSE lat2[x]] /\ liveB' = liveB2 /\ parB' = parB2 /\ anc' = anc2 /\ tags' = tags2
   /\ dirty' = {d \in dirty \cup (IF op = "delete_branch" THEN {st.name} ELSE {}) :
                   d \notin liveB2 /\ \E k \in DOMAIN T2 : OwnerOf(k[1]) = OwnerKey(d)}
   /\ tree' = T2
